@@ -249,7 +249,7 @@ func ruleC19LoaderReach(c *Ctx, r *Rep) {
 				}
 				n++
 				from := c.PhysFile(x.Pos())
-				okc := from == "module_loader.go" || (f.Name() == "NewModuleLoader")
+				okc := from == "module_loader.go"
 				r.Check(okc, "call:"+declKey(fd)+"→"+f.Name(), x.Pos(), "static call from %s (%s) to %s of module_loader.go (the loader's methods must be reached only through interface assertions on compiler.moduleLoader)", declKey(fd), from, f.Name())
 			}
 			return true
